@@ -422,6 +422,11 @@ var _ = psenc.StandardEncoding
 //@ safety C19
 //@ ensures [C19.num] (has(f.Glyphs, ".notdef") ==> result == len(f.Glyphs)) && (!has(f.Glyphs, ".notdef") ==> result == len(f.Glyphs) + 1)
 
+//@ func (*Font).BuiltinEncoding
+//@ safety C19
+//@ requires f != nil
+//@ ensures [C19.builtinenc] sameslice(result, f.Encoding) && len(result) == len(f.Encoding)
+
 //@ func (*Font).GlyphBBoxPDF
 //@ requires f != nil
 //@ ensures [C19.bboxpdf.proper] result.LLx <= result.URx && result.LLy <= result.URy
